@@ -2,6 +2,8 @@
 #define PHOTOSPLINE_FITSIO_H
 
 #include <string.h>
+#include <cmath>
+#include <limits>
 
 namespace photospline{
 	
@@ -154,6 +156,18 @@ bool splinetable<Alloc>::read_fits_mem(void* buffer, size_t buffer_size){
 	
 template<typename Alloc>
 bool splinetable<Alloc>::read_fits_core(fitsfile* fits, const std::string& filePath){
+	//A failed read must leave this object empty, reusable and destructible,
+	//not half built.
+	try{
+		return(read_fits_core_impl(fits, filePath));
+	}catch(...){
+		release_storage();
+		throw;
+	}
+}
+
+template<typename Alloc>
+bool splinetable<Alloc>::read_fits_core_impl(fitsfile* fits, const std::string& filePath){
 	int error = 0;
 	//if (error != 0)
 	//	throw std::runtime_error("Failed to move to HDU 1 in "+filePath);
@@ -217,8 +231,8 @@ bool splinetable<Alloc>::read_fits_core(fitsfile* fits, const std::string& fileP
 				aux[i] = allocate<char_ptr>(2);
 				aux[i][0] = aux[i][1] = NULL;
 				aux[i][0] = allocate<char>(keylen);
-				aux[i][1] = allocate<char>(valuelen);
 				std::copy(key,key+keylen,aux[i][0]);
+				aux[i][1] = allocate<char>(valuelen);
 				//remove stupid quotes mandated by FITS, but not removed by cfitsio on reading
 				//Note that we do not attempt to remove whitespace, because we cannot 
 				//distinguish whitespace included by the user and whitespace pointlessly
@@ -286,8 +300,10 @@ bool splinetable<Alloc>::read_fits_core(fitsfile* fits, const std::string& fileP
 	//arrays which don't depend on the orders or numbers of knots before the
 	//ones which do
 	knots = allocate<double_ptr>(ndim);
+	std::fill(knots,knots+ndim,nullptr);
 	nknots = allocate<uint64_t>(ndim);
 	extents = allocate<double_ptr>(ndim);
+	extents[0] = nullptr;
 	extents[0] = allocate<double>(2*ndim);
 	
 	//Read the coefficient table
@@ -315,6 +331,15 @@ bool splinetable<Alloc>::read_fits_core(fitsfile* fits, const std::string& fileP
 	std::partial_sum(naxes_temp.begin(),naxes_temp.end()-1,strides+1,std::multiplies<uint64_t>());
 	std::reverse(strides,strides+ndim);
 	uint64_t ncoeffs=strides[0]*naxes[0];
+	{
+		//make sure that the product did not wrap around
+		uint64_t check=1;
+		for(uint32_t i=0; i<ndim; i++){
+			if(naxes[i]==0 || check>(uint64_t)std::numeric_limits<long>::max()/naxes[i])
+				throw std::runtime_error("Invalid coefficient array size in "+filePath);
+			check*=naxes[i];
+		}
+	}
 	coefficients = allocate<float>(ncoeffs);
 	
 	std::vector<long> fpixel(ndim,1);
@@ -339,6 +364,15 @@ bool splinetable<Alloc>::read_fits_core(fitsfile* fits, const std::string& fileP
 		if(nknots_temp<=0)
 			throw std::runtime_error("Invalid number of knots ("+std::to_string(nknots_temp)+") in dimension "+std::to_string(i));
 		nknots[i]=nknots_temp;
+		//The table is only usable if it has at least order+1 coefficients in
+		//each dimension, and exactly as many as the knots and order imply.
+		if((uint64_t)nknots_temp<2*(uint64_t)order[i]+2)
+			throw std::runtime_error("Too few knots ("+std::to_string(nknots_temp)+") for order "
+			                         +std::to_string(order[i])+" in dimension "+std::to_string(i));
+		if(naxes[i]!=nknots[i]-order[i]-1)
+			throw std::runtime_error("Number of coefficients ("+std::to_string(naxes[i])
+			                         +") in dimension "+std::to_string(i)+" does not match the number of knots ("
+			                         +std::to_string(nknots_temp)+") and the order ("+std::to_string(order[i])+")");
 		
 		//Allow spline evaluations to run off the ends of the
 		//knot field without segfaulting.
@@ -349,6 +383,10 @@ bool splinetable<Alloc>::read_fits_core(fitsfile* fits, const std::string& fileP
 		fits_read_pix(fits, TDOUBLE, &fpix, nknots[i], NULL, &knots[i][0], NULL, &error);
 		if (error != 0)
 			throw std::runtime_error("Error reading knot vector "+std::to_string(i)+" data");
+		for (uint64_t j = 0; j < nknots[i]; j++) {
+			if (!std::isfinite(knots[i][j]) || (j > 0 && knots[i][j] < knots[i][j-1]))
+				throw std::runtime_error("Knot vector "+std::to_string(i)+" is not finite and non-decreasing");
+		}
 	}
 	
 	//Read the axes extents, stored in a single extension HDU.
